@@ -8,7 +8,11 @@ use std::sync::OnceLock;
 struct Ctx {
     /// bit mask of properties whose violation is fatal
     fatal: u32,
+    /// the single property under check (0 = any)
+    prop: u32,
     known: Vec<Known>,
+    summary: Option<String>,
+    stats: std::sync::Mutex<(u64, std::collections::HashSet<u64>, u64)>,
 }
 
 static CTX: OnceLock<Ctx> = OnceLock::new();
@@ -20,7 +24,7 @@ fn ctx() -> &'static Ctx {
         // is not caught still ends the process through libfuzzer-sys' catch_unwind wrapper.
         std::panic::set_hook(Box::new(|_| {}));
         install_hooks();
-        let fatal = match std::env::var("VERIF_PROP") {
+        let fatal: u32 = match std::env::var("VERIF_PROP") {
             Ok(p) => {
                 let n: u32 = p.trim_start_matches('C').parse().unwrap_or(0);
                 if (1..=18).contains(&n) {
@@ -31,9 +35,13 @@ fn ctx() -> &'static Ctx {
             }
             Err(_) => 0x7FFFE,
         };
+        let prop = if fatal.count_ones() == 1 { fatal.trailing_zeros() } else { 0 };
         Ctx {
             fatal,
+            prop,
             known: load_known(),
+            summary: std::env::var("VERIF_FUZZ_SUMMARY").ok(),
+            stats: std::sync::Mutex::new((0, std::collections::HashSet::new(), 0)),
         }
     })
 }
@@ -43,6 +51,19 @@ pub fn run(data: &[u8], fam: Family) {
     let case = decode_case(data, fam);
     // no counting allocator in this build (ASan owns the heap): C18 is not evaluated here
     let r = run_case(&case, false, false);
+    if let Some(path) = &c.summary {
+        let mut st = c.stats.lock().unwrap();
+        st.0 += 1;
+        st.2 += r.stats.polls;
+        if c.prop != 0 && crate::engine::nontrivial(c.prop, &case, &r) {
+            st.1.insert(case.digest());
+        }
+        if st.0 % 2048 == 0 {
+            let doc = serde_json::json!({"engine": "E3-fuzz", "executions": st.0, "distinct_nontrivial": st.1.len(), "polls": st.2,
+                "family": format!("{fam:?}"), "sample": crate::engine::sample_json(&case, &r)});
+            let _ = std::fs::write(path, doc.to_string());
+        }
+    }
     for v in &r.violations {
         if v.props & c.fatal == 0 || v.props & (1 << 18) != 0 && v.props.count_ones() == 1 {
             continue;
